@@ -295,6 +295,9 @@ pub struct QueryKnobs {
     /// the same inside folds (imported tags)
     pub p_tag_operand_in_fold: (u32, u32),
     pub p_reuse_var: (u32, u32),
+    /// a fold-count filter and a property filter share one variable (types equal up to nullability);
+    /// off by default, so that the other groups' random streams are unchanged (C11 turns it on)
+    pub p_cross_hint_reuse: (u32, u32),
     pub p_typename: (u32, u32),
     pub p_count_output: (u32, u32),
     pub p_count_filter: (u32, u32),
@@ -324,6 +327,7 @@ impl Default for QueryKnobs {
             p_tag_operand: (1, 2),
             p_tag_operand_in_fold: (3, 4),
             p_reuse_var: (1, 6),
+            p_cross_hint_reuse: (0, 1),
             p_typename: (1, 14),
             p_count_output: (2, 5),
             p_count_filter: (2, 5),
@@ -440,6 +444,24 @@ impl<'a> Gen<'a> {
     }
 
     fn var_for(&mut self, need: Ty, hint: VarHint) -> String {
+        if matches!(hint, VarHint::Count | VarHint::Prop(_)) && chance(self.rng, self.knobs.p_cross_hint_reuse) {
+            let cands: Vec<usize> = self
+                .vars
+                .iter()
+                .enumerate()
+                .filter(|(_, v)| matches!(v.hint, VarHint::Count | VarHint::Prop(_)) && v.hint != hint && v.ty.eqn(&need))
+                .map(|(i, _)| i)
+                .collect();
+            if !cands.is_empty() {
+                let i = cands[self.rng.below(cands.len())];
+                if let Some(t) = self.vars[i].ty.intersect(&need) {
+                    self.vars[i].ty = t;
+                    self.feat("var-reused");
+                    self.feat("var-reused-count-and-prop");
+                    return self.vars[i].name.clone();
+                }
+            }
+        }
         if chance(self.rng, self.knobs.p_reuse_var) {
             let cands: Vec<usize> =
                 self.vars.iter().enumerate().filter(|(_, v)| v.hint == hint && v.ty.eqn(&need)).map(|(i, _)| i).collect();
